@@ -83,6 +83,13 @@ def _label(v):
     return v if isinstance(v, str) else str(v)
 
 
+def _ob_events(ctx):
+    if ctx.ghost.get('sched_last') is not None:
+        # the schedule: which thread was granted which mutex, in order
+        return ['thread %s %s %s @%s' % e[1:5] for e in ctx.events if e and e[0] == 'sched' and len(e) >= 5]
+    return [repr(e)[:300] for e in ctx.events[-12:]]
+
+
 def i_assert(I, args, ins):
     ctx = I.ctx
     c, label = args[0], _label(args[1])
@@ -100,6 +107,7 @@ def i_assert(I, args, ins):
         ob['witness'] = witness(ctx, m)
         ob['choices'] = list(ctx.trace_choices)
         ob['decisions'] = list(ctx.decisions)
+        ob['events'] = _ob_events(ctx)
         ctx.obligations.append(ob)
         raise PathEnd()
     c = z3.simplify(c)
@@ -115,7 +123,7 @@ def i_assert(I, args, ins):
         ob['witness'] = witness(ctx, m, (z3.Not(c),))
         ob['choices'] = list(ctx.trace_choices)
         ob['decisions'] = list(ctx.decisions)
-        ob['events'] = [repr(e)[:300] for e in ctx.events[-12:]]
+        ob['events'] = _ob_events(ctx)
     else:
         ob['verdict'] = 'undecided'
         if ctx.opts.get('concrete_fallback'):
